@@ -2526,8 +2526,9 @@ class Stream(AbstractStream):
         if len(phases) == 1:
             self.phase, = phases
         else:
+            imol = self._imol.to_material_indexer(phases)
             self.__class__ = tmo.MultiStream
-            self._imol = self._imol.to_material_indexer(phases)
+            self._imol = imol
             self._streams = {}
             self._vle_cache = eq.VLECache(self._imol,
                                           self._thermal_condition,
